@@ -131,7 +131,7 @@ func name(ski string) string {
 	}
 	return "?" + ski
 }
-func (f *freader) RemoteSKIConnected(ski string)    { f.r.add("Connected:" + name(ski)) }
+func (f *freader) RemoteSKIConnected(ski string) { f.r.add("Connected:" + name(ski)) }
 func (f *freader) RemoteSKIDisconnected(ski string) {
 	f.r.add("Disconnected:" + name(ski))
 	if g := f.onDisc; g != nil {
@@ -199,7 +199,7 @@ type listener struct {
 }
 
 func newListener() *listener {
-	l, err := net.Listen("tcp", "127.0.0.1:0")
+	l, err := vh.Listen("127.0.0.1:0")
 	if err != nil {
 		panic(err)
 	}
